@@ -8,8 +8,11 @@ import (
 	"math/big"
 	"os"
 	"os/exec"
+	"path/filepath"
+	"runtime"
 	"strings"
 	"sync"
+	"sync/atomic"
 	"time"
 )
 
@@ -61,12 +64,15 @@ type Session struct {
 	Log     io.Writer
 	timeout int // ms
 	dead    bool
+	seq     int
+	cvc5    bool
 }
 
 var SolverPath = "z3-new"
 
 func NewSession(timeoutMs int) (*Session, error) {
 	s := &Session{name: SolverPath, timeout: timeoutMs}
+	s.cvc5 = strings.Contains(SolverPath, "cvc5")
 	if err := s.start(); err != nil {
 		return nil, err
 	}
@@ -74,7 +80,11 @@ func NewSession(timeoutMs int) (*Session, error) {
 }
 
 func (s *Session) start() error {
-	s.cmd = exec.Command(s.name, "-in")
+	if s.cvc5 {
+		s.cmd = exec.Command(s.name, "--incremental", "--produce-models", "--lang=smt2", fmt.Sprintf("--tlimit-per=%d", CVC5LimitMs))
+	} else {
+		s.cmd = exec.Command(s.name, "-in")
+	}
 	in, err := s.cmd.StdinPipe()
 	if err != nil {
 		return err
@@ -91,9 +101,20 @@ func (s *Session) start() error {
 	s.out = bufio.NewReaderSize(out, 1<<16)
 	s.dead = false
 	s.resetState()
+	s.prelude()
+	return nil
+}
+
+// CVC5LimitMs is the per-query limit of cvc5 sessions (fixed at process start).
+var CVC5LimitMs = 30000
+
+func (s *Session) prelude() {
+	if s.cvc5 {
+		s.send("(set-logic ALL)")
+		return
+	}
 	s.send("(set-option :print-success false)")
 	s.send(fmt.Sprintf("(set-option :timeout %d)", s.timeout))
-	return nil
 }
 
 func (s *Session) resetState() {
@@ -129,13 +150,14 @@ func (s *Session) Reset() {
 	}
 	s.send("(reset)")
 	s.resetState()
-	s.send("(set-option :print-success false)")
-	s.send(fmt.Sprintf("(set-option :timeout %d)", s.timeout))
+	s.prelude()
 }
 
 func (s *Session) SetTimeout(ms int) {
 	s.timeout = ms
-	s.send(fmt.Sprintf("(set-option :timeout %d)", ms))
+	if !s.cvc5 {
+		s.send(fmt.Sprintf("(set-option :timeout %d)", ms))
+	}
 }
 
 func (s *Session) Push() {
@@ -254,41 +276,85 @@ func (s *Session) readLine() (string, error) {
 	select {
 	case r := <-ch:
 		return strings.TrimSpace(r.s), r.err
-	case <-time.After(time.Duration(s.timeout)*time.Millisecond + 20*time.Second):
+	case <-time.After(time.Duration(max(s.timeout, CVC5LimitMs))*time.Millisecond + 20*time.Second):
 		s.dead = true
 		s.cmd.Process.Kill()
 		return "", fmt.Errorf("solver hung")
 	}
 }
 
+// roundTrip sends a command followed by an echo marker and returns all reply lines
+// that precede the marker (robust against solvers that print an error line and a
+// verdict for one command).
+func (s *Session) roundTrip(cmd string) ([]string, error) {
+	s.seq++
+	marker := fmt.Sprintf("<<%d>>", s.seq)
+	s.send(cmd)
+	s.send("(echo \"" + marker + "\")")
+	var lines []string
+	for {
+		l, err := s.readLine()
+		if err != nil {
+			return lines, err
+		}
+		if strings.Trim(l, "\"") == marker {
+			return lines, nil
+		}
+		if l != "" {
+			lines = append(lines, l)
+		}
+	}
+}
+
 // Check runs check-sat on the current assertion stack.
 func (s *Session) Check() Result {
 	t0 := time.Now()
-	s.send("(check-sat)")
-	line, err := s.readLine()
+	lines, err := s.roundTrip("(check-sat)")
 	d := time.Since(t0).Seconds()
 	s.Stats.Queries++
 	s.Stats.TimeS += d
 	if d > s.Stats.MaxS {
 		s.Stats.MaxS = d
 	}
-	var r Result
-	switch {
-	case err != nil:
-		s.Stats.Errors++
+	if SlowLog != "" && d > 2 {
+		dumpSlow(s, d)
+	}
+	if QLog {
+		_, file, line, _ := runtime.Caller(1)
+		_, file2, line2, _ := runtime.Caller(2)
+		fmt.Fprintf(os.Stderr, "Q %.2fs %v %s:%d < %s:%d\n", d, lines, filepath.Base(file), line, filepath.Base(file2), line2)
+	}
+	r := Unknown
+	verdicts := 0
+	hasErr := err != nil
+	for _, line := range lines {
+		switch {
+		case line == "sat":
+			r = Sat
+			verdicts++
+		case line == "unsat":
+			r = Unsat
+			verdicts++
+		case line == "unknown" || line == "timeout":
+			verdicts++
+		case strings.Contains(line, "canceled") || strings.Contains(line, "timeout"):
+			// resource limit: inconclusive
+		default:
+			fmt.Fprintf(os.Stderr, "solver: unexpected reply %q\n", line)
+			hasErr = true
+		}
+	}
+	if err != nil {
 		s.dead = true
-		r = Unknown
-	case line == "sat":
-		r = Sat
-	case line == "unsat":
-		r = Unsat
-	case line == "unknown" || line == "timeout":
-		r = Unknown
-	default:
-		// (error ...) or anything else: inconclusive.
-		fmt.Fprintf(os.Stderr, "solver: unexpected reply %q\n", line)
-		s.Stats.Errors++
-		r = Unknown
+	}
+	if hasErr || verdicts != 1 {
+		// any (error line or protocol irregularity makes the query inconclusive
+		if hasErr {
+			s.Stats.Errors++
+		}
+		if verdicts != 1 || hasErr {
+			r = Unknown
+		}
 	}
 	switch r {
 	case Sat:
@@ -299,6 +365,23 @@ func (s *Session) Check() Result {
 		s.Stats.Unknown++
 	}
 	return r
+}
+
+// SlowLog, when set, is a directory receiving scripts of queries slower than 2 s.
+var SlowLog = ""
+
+// QLog prints one line per query (debugging).
+var QLog = os.Getenv("GOSYM_QLOG") != ""
+
+var slowN int32
+
+func dumpSlow(s *Session, d float64) {
+	n := atomic.AddInt32(&slowN, 1)
+	if n > 200 {
+		return
+	}
+	os.MkdirAll(SlowLog, 0o755)
+	os.WriteFile(fmt.Sprintf("%s/q%03d_%.0fs.smt2", SlowLog, n, d), []byte(Script(s.AllAsserts(), 0, false)), 0o644)
 }
 
 // CheckWith: push; assert extra; check; pop.
@@ -340,10 +423,13 @@ func (s *Session) GetValues(vars []*Term) (map[string]Value, error) {
 	for _, v := range vars {
 		names = append(names, s.ref(v))
 	}
-	s.send("(get-value (" + strings.Join(names, " ") + "))")
-	txt, err := s.readSexp()
+	lines, err := s.roundTrip("(get-value (" + strings.Join(names, " ") + "))")
 	if err != nil {
 		return nil, err
+	}
+	txt := strings.Join(lines, " ")
+	if strings.Contains(txt, "(error") {
+		return nil, fmt.Errorf("get-value: %s", txt)
 	}
 	sx, _, err := parseSexp(txt, 0)
 	if err != nil {
